@@ -119,11 +119,13 @@ def rand_tempo(rng: random.Random, prof: Profile, res: int):
     return out
 
 
-WORDS = ["solo", "soloend", "x", "a_b", "[idle]", "E", "N", "=", "k=v", "é", "日本", "a\tb", "7", "S2", "\"q\"", "e\u0301", "\u212b", "\u2126x", "100%", "%s", "{0}"]
+WORDS = ["solo", "soloend", "x", "a_b", "[idle]", "E", "N", "=", "k=v", "é", "日本", "a\tb", "7", "S2", "\"q\"", "e\u0301", "\u212b", "\u2126x", "100%", "%s", "{0}", "//", "x//", "see:http://example.org/x", "a//b//c", "#c", "\\\\x", "\u201cq\u201d"]
 TEXT_ATOMS = ["lyric", "section", "lyric ", "section ", "Lyric ", "SECTION ", "Section ", "LYRIC ", "ſection ", " ", "  ", "\"", "=", "[", "]", "{", "}", "la", "Intro", "1", "é",
               "日本", "\t", "E", "phrase_start", "a", "-", "'", "\\", "\xa0", "N 0 0",
               # text that is not in a Unicode normal form (decomposed accents, singleton code points, compatibility forms): verbatim means verbatim
-              "e\u0301", "\u212b", "\u2126", "\u30cf\u3099", "\ufb01", "\u1e9b\u0323", "\u00c5", "\uff21", "\u0130", "\u00df", "%s", "{0}"]
+              "e\u0301", "\u212b", "\u2126", "\u30cf\u3099", "\ufb01", "\u1e9b\u0323", "\u00c5", "\uff21", "\u0130", "\u00df", "%s", "{0}",
+              # what other formats treat as comments, escapes or quotes is ordinary text here
+              "//", " // ", "http://x", "a//b", "#", ";", "\\\\", "\\n", "\u201c", "\u201d", "\u2018", "/*", "*/", "<!--"]
 
 
 def rand_text(rng: random.Random, prof: Profile) -> tuple[str, str]:
@@ -211,6 +213,10 @@ def rand_src(rng: random.Random, prof: Profile | None = None) -> ChartSrc:
         t += rng.randint(0, last + 500)
         tss.append((t, rng.randint(1, 16), rng.choice([None, 0, 2, 3, 5])))
     anchors = [(rng.randint(0, last + 100), rng.randint(0, 10**8)) for _ in range(rng.choice([0, 0, 0, 1, 2]))]
+    if rng.random() < 0.3:
+        # an anchor sitting on a tempo line's tick, with a time of its own (a little or a lot off the tempo-map time)
+        anchors += [(t, rng.choice([0, rng.randint(0, 10**8), 599998500])) for t, _ in rng.sample(tempo, rng.randint(1, min(2, len(tempo))))]
+        anchors.sort(key=lambda a_: a_[0])
     gevents = []
     t = 0
     for _ in range(rng.randint(0, prof.max_events)):
@@ -239,7 +245,7 @@ def rand_src(rng: random.Random, prof: Profile | None = None) -> ChartSrc:
 def rand_value(rng: random.Random, prof: Profile) -> str:
     if rng.random() < prof.tricky_text:
         atoms = ["a", "B c", "\"", "=", " = ", "Name", "Artist = x", "Resolution = 1", ", 2018", "é", "日本", " ", "\t", "song.ogg",
-                 "\"x\"", "0", "12", "[", "}", "e\u0301", "\u212b", "\u2126", "\u3000", "\xa0", "%s", "100%", "{0}", "\\"]
+                 "\"x\"", "0", "12", "[", "}", "e\u0301", "\u212b", "\u2126", "\u3000", "\xa0", "%s", "100%", "{0}", "\\", "//", "AC//DC", " // ", "\\\\", "\\\\nas\\share", "\\\"", "\u201c", "\u201d", "#", ";"]
         v = "".join(rng.choice(atoms) for _ in range(rng.randint(1, 4)))
     else:
         v = rng.choice(["Song Name", "Artist", ", 2018", "song.ogg", "rock", "x"])
